@@ -7605,14 +7605,8 @@ class TensorDictBase(MutableMapping):
             tensor([ 0,  1,  2,  3,  4,  5,  6,  7,  8,  9, 10, 11])
 
         """
-        if start_dim < 0:
-            start_dim = self.ndim + start_dim
-        if end_dim < 0:
-            end_dim = self.ndim + end_dim
-            if end_dim < 0:
-                raise ValueError(
-                    f"Incompatible end_dim {end_dim} for tensordict with shape {self.shape}."
-                )
+        start_dim = _maybe_correct_neg_dim(start_dim, self.batch_size)
+        end_dim = _maybe_correct_neg_dim(end_dim, self.batch_size)
         if end_dim <= start_dim:
             raise ValueError(
                 "The end dimension must be strictly greater than the start dim."
